@@ -623,7 +623,7 @@ def rule_amibounds(ctx):
         if t.op == "call" and call_name(t) == "np.resize" and len(t.a[1]) == 2 and t.a[1][1].op == "tuple" and len(t.a[1][1].a) == 2:
             dims = []
             for d in t.a[1][1].a:
-                dims.append(int(d.a[1].a[0]) if d.op == "sub" and d.a[0].op == "attr" and d.a[0].a[1] == "shape" and d.a[1].op == "const" else None)
+                dims.append(common.dim_of(d)[1] if common.dim_of(d) is not None else None)
             own = {1: 0, 0: 1}.get(ax)  # a has shape[0] entries, b has shape[1]
             # row-major fill: the marginal repeats along the last axis only when the last dimension is its own length
             if dims[1] != own or dims[0] != 1 - own:
